@@ -5,7 +5,7 @@ import ast as _ast
 import struct as _struct
 
 from ..common import alloc_typecodes, nshow, outer_field, paths
-from ..expr import C, SELF, canon, first_diff, norm, show, strip_epochs, walk
+from ..expr import C, SELF, canon, first_diff, mapx, norm, show, strip_epochs, walk
 from ..model import AnalysisError
 from .C05 import emissions, footer_of
 from .C18 import kernel_rules
@@ -149,21 +149,18 @@ def check(prog, rep, tier):
         rep.bad("C06.bloom-addressing", "CountingBloomFilter.add_alt", "cell addressing", "counting Bloom does not use one cell per bit position (hash mod number of bits)", f.where())
     # ---------------------------------------------------------------- count-min cell and queries
     ctx = "CountMinSketch"
-    from .C02 import cell_accesses, elem_form
+    from .C02 import cell_accesses, rf
+    from ..common import CM_ANCHORS, apaths
     for fname in ("add_alt", "check_alt"):
         f = prog.method(ctx, fname)
         w = ("f", SELF, "_CountMinSketch__width", 0)
-        forms = set()
-        for kind, idx, e, p in cell_accesses(paths(prog, ctx, f)):
-            ef = elem_form(idx)
-            forms.add(ef)
-        L = "L0"
-        want = (canon(("bin", "+", ("bin", "%", ("it", L, h), w), ("bin", "*", ("ix", L, h), w))), canon(("call", ("g", "enumerate"), (h,), ())))
+        forms = {rf(idx) for kind, idx, e, p in cell_accesses(apaths(prog, ctx, f, CM_ANCHORS))}
+        want = canon(("bin", "+", ("bin", "%", ("it", "L", h), w), ("bin", "*", ("ix", "L", h), w)))
         if forms == {want}:
             rep.ok("C06.countmin-cell", f"{ctx}.{fname}")
         else:
-            got = sorted((nshow(x[0]) + " over " + nshow(x[1])) if x else "?" for x in forms)
-            rep.bad("C06.countmin-cell", f"{ctx}.{fname}", f"cell {got}", f"cell index is {got}; documented (hash mod width) + row*width over enumerate(hashes)", f.where())
+            got = sorted(nshow(x) for x in forms)
+            rep.bad("C06.countmin-cell", f"{ctx}.{fname}", f"cell {got}", f"cell index is {got}; documented (hash mod width) + row*width, row = position in hashes", f.where())
     res = ("p", "results")
     f = prog.method(ctx, "__mean_query")
     rv = {canon(p.exit[1]) for p in paths(prog, ctx, f) if p.exit[0] == "return"}
@@ -188,37 +185,52 @@ def check(prog, rep, tier):
                 okm = False
                 rep.bad("C06.mean-queries", f"{ctx}.__mean_min_query", "zero shortcut", "0 is returned without both the smallest and the largest row value being 0", f.where(p.exit[2]))
             continue
-        apps = [e for e in p.events if e.kind == "call" and e.name == "append" and e.loops]
-        comps = [e for e in p.events if e.kind == "bind" and e.value[0] == "comp" and e.value[1] == "list" and len(e.value[3]) == 1
-                 and strip_epochs(e.value[3][0][2]) == res]
-        if not apps and not comps:
+        # the list the result indexes: per-row estimates, sorted
+        conts = {strip_epochs(n[1]) for n in walk(rvv) if n[0] == "sub" and n[1][0] in ("newb", "call", "comp")}
+        if len(conts) != 1:
+            if any(c.atom[0] == "loop0" for c in p.conds):
+                continue
+            okm = False
+            rep.bad("C06.mean-queries", f"{ctx}.__mean_min_query", "no per-row estimates", f"the result {nshow(rvv)} is not taken from one list of per-row estimates", f.where(p.exit[2]))
+            break
+        lst = next(iter(conts))
+        a, is_sorted, where = None, False, f.where
+        src = lst
+        if lst[0] == "call" and lst[1] == ("g", "sorted") and len(lst[2]) == 1 and not lst[3]:
+            is_sorted = True
+            src = lst[2][0]
+        if src[0] == "comp" and src[1] in ("list", "gen") and len(src[3]) == 1 and not src[3][0][3] and strip_epochs(src[3][0][2]) == res:
+            a = strip_epochs(src[2])
+        elif src[0] == "newb" and src[1] == "list":
+            apps = [e for e in p.events if e.kind == "call" and e.name == "append" and e.loops and strip_epochs(e.recv) == src]
+            other = [e for e in p.events if e.kind == "call" and e.name in ("insert", "extend", "pop", "remove", "clear") and e.d.get("recv") is not None
+                     and strip_epochs(e.recv) == src]
+            if len(apps) == 1 and not other:
+                a = strip_epochs(apps[0].args[0])
+                where = apps[0].where
+        if not is_sorted:
+            is_sorted = any(e.kind == "call" and e.name == "sort" and not e.loops and not e.kwargs and strip_epochs(e.recv) == src for e in p.events)
+        if a is None:
             if any(c.atom[0] == "loop0" for c in p.conds):
                 continue
             okm = False
             rep.bad("C06.mean-queries", f"{ctx}.__mean_min_query", "no per-row estimates", "no per-row estimate list is built from the row values", f.where())
             break
-        if not apps:
-            class _A:  # comprehension form: [estimate for bin in results]
-                args = [comps[0].value[2]]
-                recv = comps[0].value
-                where = comps[0].where
-            apps = [_A]
-        a = strip_epochs(apps[0].args[0])
         tb = [n for n in walk(a) if n[0] == "it"]
         want = norm(("bin", "-", tb[0], ("bin", "//", ("bin", "-", N, tb[0]), ("bin", "-", W, C(1))))) if tb else None
         if want is None or canon(a) != canon(want) or strip_epochs(tb[0][2]) != res:
             okm = False
-            rep.bad("C06.mean-queries", f"{ctx}.__mean_min_query", f"estimate {nshow(a)}", f"per-row estimate is {nshow(a)}; documented bin - (N - bin) // (width - 1) over all row values", apps[0].where())
+            rep.bad("C06.mean-queries", f"{ctx}.__mean_min_query", f"estimate {nshow(a)}", f"per-row estimate is {nshow(a)}; documented bin - (N - bin) // (width - 1) over all row values", where())
             break
-        lst = apps[0].recv
-        sorts = [e for e in p.events if e.kind == "call" and e.name == "sort" and e.recv == lst and not e.loops]
-        if not sorts:
+        if not is_sorted:
             okm = False
             rep.bad("C06.mean-queries", f"{ctx}.__mean_min_query", "unsorted", "the per-row estimates are not sorted before the median is taken", f.where())
             break
         even = [c for c in p.conds if strip_epochs(c.atom) == ("cmp", "==", ("bin", "%", d, C(2)), C(0))]
         half = ("bin", "//", d, C(2))
-        m = lambda i: ("sub", lst, i, 0)  # noqa: E731
+        M = ("p", "<estimates>")
+        m = lambda i: ("sub", M, i, 0)  # noqa: E731
+        rvm = mapx(rvv, lambda n: M if n == lst else None)
         if even and even[0].truth:
             wantr = norm(("bin", "//", ("bin", "+", m(half), m(("bin", "-", half, C(1)))), C(2)))
             seen.add("even")
@@ -227,7 +239,7 @@ def check(prog, rep, tier):
             seen.add("odd")
         else:
             wantr = None
-        if wantr is None or canon(rvv) != canon(wantr):
+        if wantr is None or canon(rvm) != canon(wantr):
             okm = False
             rep.bad("C06.mean-queries", f"{ctx}.__mean_min_query", f"median {nshow(rvv)}", f"the result {nshow(rvv)} is not the median of the sorted per-row estimates", f.where(p.exit[2]))
             break
